@@ -292,6 +292,7 @@ def one_run(acc, seed, tag):
         W.chunker = lambda b: gen.cut(b, gen.random_cuts(cr, len(b), cr.choice([0, 1, 2, 5])))
     W.server.low_keys = 12
     W.server.skmsg_first = gen.rng(seed, ID, tag + "/srvshape").random() < 0.3
+    W.server.retry_participant_empty = gen.rng(seed, ID, tag + "/srvshape2").random() < 0.3
     threaded = wiring == "framed" and r.random() < 0.25
     W.threaded_sends = threaded
     groups = {}
